@@ -375,11 +375,11 @@ func (lc *LabCase) withSkips() *Scenario {
 
 // Owned is the ownership map obtained from the recording run.
 type Owned struct {
-	Entry    map[[2]string]string         // (path, id) -> test
-	SAFile   map[string]string            // standalone path -> test
-	FileOwn  map[string]map[string]bool   // multi-entry path -> owning tests
-	Calls    map[string][]*CallRec        // test -> its calls
-	MaxCalls map[string]int               // test -> max ordinal on any file
+	Entry    map[[2]string]string       // (path, id) -> test
+	SAFile   map[string]string          // standalone path -> test
+	FileOwn  map[string]map[string]bool // multi-entry path -> owning tests
+	Calls    map[string][]*CallRec      // test -> its calls
+	MaxCalls map[string]int             // test -> max ordinal on any file
 }
 
 func BuildOwned(a *Analysis) *Owned {
@@ -404,12 +404,13 @@ func BuildOwned(a *Analysis) *Owned {
 
 // Seeded lists what was planted before the judged run.
 type Seeded struct {
-	StaleEntries map[[2]string]bool // (path, id)
-	StaleFiles   map[string]bool
-	Decoys       map[string]bool // paths that must never be touched
-	InScopeOdd   map[string]bool // names that contain .snap in the middle: in scope, must be reported
-	LiveElsewhere int            // stale entries whose id is live in another file
+	StaleEntries  map[[2]string]bool // (path, id)
+	StaleFiles    map[string]bool
+	Decoys        map[string]bool // paths that must never be touched
+	InScopeOdd    map[string]bool // names that contain .snap in the middle: in scope, must be reported
+	LiveElsewhere int             // stale entries whose id is live in another file
 	Torn          map[string]bool // files that were given an unterminated tail entry
+	Loose         int             // files laid out with runs of blank lines between entries
 }
 
 // AllowedListings counts, per id, in how many addressed files the id is present
@@ -524,6 +525,12 @@ func (l *Lab) Seed(r *rand.Rand, own *Owned, o LabOpts) *Seeded {
 			r.Shuffle(len(ents), func(i, j int) { ents[i], ents[j] = ents[j], ents[i] })
 		}
 		content := vkit.RenderSnapFile(ents)
+		if r.IntN(5) == 0 {
+			// hand-edited / merged layout: runs of blank lines between the entries and at both
+			// ends of the file (the reader skips them; a rewrite produces the shorter canonical form)
+			content = vkit.RenderSnapFileLoose(r, ents)
+			sd.Loose++
+		}
 		if o.TornTail && r.IntN(3) == 0 {
 			// a previous run died while appending: header and part of a body, no terminator
 			content += "\n[TestZTorn - 1]\nhalf written\nbody\n"
